@@ -117,6 +117,10 @@ def run_real(scen, workdir, rng=None):
     for f, c in zip(files, scen['disk']):
         Path(f).parent.mkdir(parents=True, exist_ok=True)
         Path(f).write_text(texts[c])
+    # other files of the working directory (and backups that already exist): content ids like the test cases
+    for f, c in (scen.get('world') or {}).get('files', {}).items():
+        Path(f).parent.mkdir(parents=True, exist_ok=True)
+        Path(f).write_text(texts[c])
     Path('t.sh').write_text('#!/bin/sh\nexit 0\n')
     os.chmod('t.sh', 0o755)
     for i in range(scen['cfg'].get('bug0', 0)):
@@ -209,8 +213,12 @@ def run_real(scen, workdir, rng=None):
             _time.time = lambda: real_wall() + step[0]
             t_begin = _time.monotonic()
             import signal
+            # the watchdog counts CPU time of this process (everything runs in-process under the shim, a loop that does not end
+            # burns CPU); wall clock only as a distant backstop, so that a loaded machine cannot turn a healthy run into a Watchdog
             signal.signal(signal.SIGALRM, _on_alarm)
-            signal.setitimer(signal.ITIMER_REAL, scen.get('budget_s', 20))
+            signal.signal(signal.SIGPROF, _on_alarm)
+            signal.setitimer(signal.ITIMER_PROF, scen.get('budget_s', 20))
+            signal.setitimer(signal.ITIMER_REAL, 30 * scen.get('budget_s', 20))
             try:
                 if scen.get('mode') == 'pass':
                     tm.run_pass(passes[scen['groups']['main'][0]])
@@ -224,6 +232,7 @@ def run_real(scen, workdir, rng=None):
                 obs['outcome'] = {'Foreign': 'ForeignError'}.get(name, name)
                 obs['error_text'] = str(e)[:200]
             finally:
+                signal.setitimer(signal.ITIMER_PROF, 0)
                 signal.setitimer(signal.ITIMER_REAL, 0)
                 _time.time = real_wall
                 obs['elapsed'] = _time.monotonic() - t_begin
@@ -239,6 +248,20 @@ def run_real(scen, workdir, rng=None):
         for k, v in saved_consts.items():
             setattr(testing.TestManager, k, v)
     obs['disk'] = [ids.get(Path(f).read_text(), -1) if Path(f).exists() else -2 for f in files]
+    if scen.get('world') is not None:
+        # the working directory after the run, report directories excluded: (relative path, content id)
+        listing = []
+        for root, dirs, fs_ in os.walk('.'):
+            dirs[:] = [d_ for d_ in dirs if not (root == '.' and d_.startswith(('cvise_bug_', 'cvise_extra_')))]
+            for f_ in fs_:
+                rel = os.path.relpath(os.path.join(root, f_), '.')
+                if rel == 't.sh':
+                    continue
+                try:
+                    listing.append((rel, ids.get(Path(rel).read_text(), -1)))
+                except (OSError, UnicodeDecodeError):
+                    listing.append((rel, -3))
+        obs['fs'] = sorted(listing)
     obs['bug'] = len([x for x in os.listdir('.') if x.startswith('cvise_bug_')])
     obs['extra'] = len([x for x in os.listdir('.') if x.startswith('cvise_extra_')])
     obs['tmp_left'] = sorted(x for x in os.listdir(tmpd) if not x.startswith('pymp-'))
@@ -308,7 +331,11 @@ def model_line(scen, obs, joint_key):
     if cfg.get('startWith'):
         reprs = [f"TablePass::{p['name']}" + (f" ({p['maxT']} T)" if p.get('maxT') is not None else '') for p in scen['passes']]
         sw = str(keys[reprs.index(cfg['startWith'])]) if cfg['startWith'] in reprs else '999999'
-    return (f"drv mode={scen.get('mode', 'reduce')}|sw={sw}|skipInitial={b(scen.get('skipInitial', False))}|cfg={cfgs}|sizes={','.join(str(len(t.encode())) for t in scen['texts'])}"
+    world = ''
+    if scen.get('world') is not None:
+        init = [(f, c) for f, c in zip(scen['files'], scen['disk'])] + sorted(scen['world'].get('files', {}).items())
+        world = f"|names={';'.join(scen['files'])}|wfs={';'.join(f'{f}:{c}' for f, c in init)}|tidy={b(cfg.get('tidy', False))}"
+    return (f"drv mode={scen.get('mode', 'reduce')}|sw={sw}|skipInitial={b(scen.get('skipInitial', False))}{world}|cfg={cfgs}|sizes={','.join(str(len(t.encode())) for t in scen['texts'])}"
             f"|disk={','.join(map(str, scen['disk']))}|perm={','.join(map(str, obs['perm']))}|passes={'/'.join(ps)}|groups={groups}"
             f"|test={test}|faults={faults}|sched={sched}|fuel={scen.get('fuel', 400)}")
 
@@ -317,8 +344,11 @@ def render_obs(scen, obs):
     ks = sorted(set(pass_keys(scen)), key=pass_keys(scen).index)
     stats = ','.join(f"{i}:{'/'.join(map(str, obs['stats'].get(i, (0, 0, 0))))}" for i in ks) or '-'
     tot = [sum(obs['stats'].get(i, (0, 0, 0))[j] for i in ks) for j in range(3)]
+    fs = ''
+    if scen.get('world') is not None:
+        fs = ' fs=' + ';'.join(sorted(f'{f}:{c}' for f, c in obs.get('fs', [])))       # the model sorts the rendered entries
     return (f"{obs['outcome']} disk={','.join(map(str, obs['disk'])) or '-'} worked={tot[0]} failed={tot[1]} executed={tot[2]} "
-            f"bug={obs['bug']} extra={obs['extra']} stats={stats} log={','.join(e for e in obs['log'] if e[0] != 'F') or '-'}")
+            f"bug={obs['bug']} extra={obs['extra']} stats={stats} log={','.join(e for e in obs['log'] if e[0] != 'F') or '-'}{fs}")
 
 
 # ------------------------------------------------------------------ real passes (text passes) under the shim
